@@ -1391,6 +1391,7 @@ class Linker:
         self.__globals = {}
         self.__loader = loader
         self.__pendingImports = set()
+        self.__loadedImports = set()
 
     def AddModule(self, module: Module):
         self.__modules.append(module)
@@ -1405,8 +1406,15 @@ class Linker:
         self.__pendingImports.update(module.Imports)
 
     def Link(self) -> Program:
-        # add all imported modules
-        for importedModule in self.__pendingImports:
+        # add all imported modules, and the modules those import in turn.
+        # Adding a module extends the pending set, and every module is loaded
+        # only once, however many modules import it
+        while self.__pendingImports:
+            importedModule = min(self.__pendingImports)
+            self.__pendingImports.discard(importedModule)
+            if importedModule in self.__loadedImports:
+                continue
+            self.__loadedImports.add(importedModule)
             self.AddModule(self.__loader.Load(importedModule))
 
         return Program(self.__functions, self.__globals)
